@@ -14,6 +14,10 @@
 #include <iostream>
 #include <sstream>
 #include <thread>
+#include <stdexcept>
+#include <signal.h>
+#include <fcntl.h>
+#include <sys/wait.h>
 
 using ksched::Scheduler;
 
@@ -452,6 +456,46 @@ std::string do_pool(std::istringstream &in) {
   return o.str();
 }
 
+// A handler that throws on one request.  util::Worker reports and abort()s: the consumed request is handled or the process ends.
+// Run in a child process; the parent reports how the child ended (aborted / finished with k requests handled / hung).
+struct FailingHandler {
+  typedef int Request;
+  struct Setup { std::atomic<int> *handled; int fail_at; };
+  explicit FailingHandler(Setup s) : s_(s) {}
+  void operator()(int r) { if (r == s_.fail_at) throw std::runtime_error("request refused"); s_.handled->fetch_add(1); }
+  Setup s_;
+};
+std::string do_poolf(std::istringstream &in) {
+  std::size_t workers, queue; int n, fail_at; uint64_t seed;
+  in >> workers >> queue >> n >> fail_at >> seed;
+  std::cout.flush();
+  pid_t pid = fork();
+  if (pid == 0) {
+    int devnull = open("/dev/null", O_WRONLY); if (devnull >= 0) dup2(devnull, 2);
+    Scheduler::Get().Reset(0);
+    Scheduler::Get().SetJitter(seed);
+    std::atomic<int> handled(0);
+    {
+      FailingHandler::Setup s; s.handled = &handled; s.fail_at = fail_at;
+      util::ThreadPool<FailingHandler> pool(queue, workers, s, -1);
+      for (int i = 0; i < n; ++i) pool.Produce(i);
+    }
+    _exit(handled.load() == n ? 0 : 10 + std::min(handled.load(), 100));
+  }
+  for (int waited = 0; waited < 60; ++waited) {     // 6 s
+    int status = 0;
+    pid_t r = waitpid(pid, &status, WNOHANG);
+    if (r == pid) {
+      if (WIFSIGNALED(status)) return std::string("ok aborted signal=") + std::to_string(WTERMSIG(status));
+      if (WEXITSTATUS(status) == 0) return "ok finished handled=" + std::to_string(n);
+      return "dropped finished-with-handled=" + std::to_string(WEXITSTATUS(status) - 10) + " of " + std::to_string(n);
+    }
+    usleep(100000);
+  }
+  kill(pid, SIGKILL); waitpid(pid, NULL, 0);
+  return "HANG the pool did not end after a handler threw";
+}
+
 }  // namespace
 
 int main() {
@@ -469,6 +513,7 @@ int main() {
         else if (kind == "CHAIN") res = do_chain(in, false);
         else if (kind == "CHAINS") res = do_chain(in, true);
         else if (kind == "POOL") res = do_pool(in);
+        else if (kind == "POOLF") res = do_poolf(in);
         else res = "bad-case";
       } catch (const std::exception &e) { res = std::string("exception ") + e.what(); }
     }
